@@ -2,6 +2,7 @@ import CpModel.Proto
 import CpModel.SessionLock
 import CpModel.SessionReq
 import CpModel.SessionFile
+import Drv.C13N
 /-!
   Driver for C13.  One case per line.
 
@@ -139,7 +140,7 @@ def showActor : SessionFile.Actor → String
   | .req i => s!"r{i}" | .sweep => "S" | .tick d => s!"K{d}" | .expire i => s!"X{i}"
 
 def showPc : SessionFile.Pc → String
-  | .init => "init" | .acq => "acq" | .openr => "openr" | .load => "load" | .trunc => "trunc"
+  | .init => "init" | .gex => "gex" | .acq => "acq" | .openr => "openr" | .load => "load" | .trunc => "trunc"
   | .dump => "dump" | .rel => "rel" | .done => "done" | .gone => "gone" | .failed => "failed"
 
 def showSPc : SessionFile.SPc → String
@@ -180,9 +181,12 @@ def stepLine (args : List String) : String :=
 
 end FileDrv
 
+
 def step (line : String) : String :=
   match Proto.fields line with
   | "ram" :: args => stepRam args
+  | "ramN" :: args => Drv.C13N.stepLine args
+  | "fileT" :: args => Drv.C13F.stepLine args
   | "file" :: args => FileDrv.stepLine args
   | "req" :: args => stepReqLine args
   | _ => "bad-op"
